@@ -88,6 +88,7 @@ pub fn replay_fun(property: &str, scenario: &str, input: &serde_json::Value) -> 
         return c18::replay_fun(input);
     }
     match property {
+        "C05" => c05::replay_fun(scenario, input),
         "C14" => c14::replay_fun(scenario, input),
         "C13" => c13::replay_fun(scenario, input),
         "C18" => c18::replay_fun(input),
